@@ -20,6 +20,7 @@ import (
 	"image"
 	"io"
 	"math"
+	"os"
 	"reflect"
 	"runtime/debug"
 	"sort"
@@ -374,6 +375,13 @@ func c04Victims(tier string) []c04Victim {
 			out = append(out, c04Victim{fmt.Sprintf("seed %s cut at %d", s.name, k), s.doc.B[:k], p.e})
 		}
 	}
+	// single-field records in degenerate shapes (parsed while the tag buffer is empty)
+	dg := degenerateRecords()
+	for _, p := range seedEntryPairs(dg) {
+		if entryPoints[p.e].alloc {
+			out = append(out, c04Victim{"seed " + dg[p.s].name, dg[p.s].doc.B, p.e})
+		}
+	}
 	// single-field malformations
 	for _, s := range gs {
 		if len(s.doc.Fields) == 0 {
@@ -387,7 +395,7 @@ func c04Victims(tier string) []c04Victim {
 				if vi >= sc.menuLen {
 					break
 				}
-				if tier != "thorough" && (fi*31+vi)%3 != 0 {
+				if tier != "thorough" && os.Getenv("C04_ALL_MALFORMATIONS") == "" && (fi*31+vi)%3 != 0 {
 					continue
 				}
 				for ei := range entryPoints {
